@@ -9,7 +9,7 @@ Everything here still decides from the current source only (no execution of repo
      (checker validation - never a VIOLATION of the property)
   T6 the check is re-run on 198 behaviour-preserving AST transformations of the core files (tools/neutral.py): a false alarm makes the
      run UNDECIDED (exit 2), never a VIOLATION
-  T7 the check is re-run on the 264 behaviour-preserving refactorings written by independent sub-agents (seeded_neutral/): same convention
+  T7 the check is re-run on the 321 behaviour-preserving refactorings written by independent sub-agents (seeded_neutral/): same convention
 """
 import ast
 import itertools
@@ -202,7 +202,7 @@ def neutral_rate(ctx):
 
 
 def refactoring_rate(ctx):
-    """T7: the property's check is re-run on the behaviour-preserving refactorings written by independent sub-agents (seeded_neutral/, 264 of them in rounds 5, 6, 8 and 9: helper
+    """T7: the property's check is re-run on the behaviour-preserving refactorings written by independent sub-agents (seeded_neutral/, 321 of them in rounds 5, 6, 8, 9 and 11: helper
     extraction, guard clauses, loop <-> comprehension, renamed private parameters, recursion -> iteration, ...). Checker validation only: a refactoring whose
     patch no longer applies to the tree under analysis is skipped; an alarm on one that applies is reported as UNDECIDED, never as a VIOLATION."""
     if ctx.P.repo != '/repo':
